@@ -361,14 +361,36 @@ class Runner:
         self.n = 0
         self.env = dict(os.environ, DDPPATH=self.sut)
 
-    def build(self, d, main, opt=1, asan=False, ledger=True, extra_objs=(), kddp_flags=(), forkmain=False):
-        """returns (ok, stage, stderr-tail, exe path)"""
-        obj = os.path.join(d, "x%d.o" % opt)
+    def ausgabe_obj(self, opt):
+        """Duden/Ausgabe compiled on its own (for the 'modules not linked' configuration), cached in the SUT dir"""
+        o = os.path.join(self.sut, "lib", "ausgabe_unlinked_O%d.o" % opt)
+        if not os.path.exists(o):
+            tmp = o + ".%d.tmp.o" % os.getpid()
+            p = subprocess.run([os.path.join(self.sut, "bin", "kddp"), "kompiliere", os.path.join(self.sut, "Duden", "Ausgabe.ddp"), "-o", tmp, "-O", str(opt),
+                                "--module-linken=false", "--list-defs-linken=false"], env=self.env, stdout=subprocess.PIPE, stderr=subprocess.STDOUT, text=True)
+            if p.returncode != 0:
+                raise vlib.Infra("cannot compile Duden/Ausgabe on its own: " + p.stdout[-800:])
+            subprocess.run(["objcopy", "--localize-symbol=ddp_ddpmain", tmp], check=True)
+            os.replace(tmp, o)
+        return o
+
+    def build(self, d, main, opt=1, asan=False, ledger=True, extra_objs=(), kddp_flags=(), forkmain=False, cfg="LL"):
+        """cfg: first letter modules linked (L) / not (U), second letter list definitions linked (L) / not (U).
+        returns (ok, stage, stderr-tail, exe path)"""
+        obj = os.path.join(d, "x%d%s.o" % (opt, cfg))
+        kddp_flags = list(kddp_flags)
+        extra_objs = list(extra_objs)
+        if cfg[1] == "U" or cfg[0] == "U":
+            kddp_flags.append("--list-defs-linken=false")
+            extra_objs.append(os.path.join(self.sut, "lib", "ddp_list_types_defs.o"))
+        if cfg[0] == "U":
+            kddp_flags.append("--module-linken=false")
+            extra_objs.append(self.ausgabe_obj(opt))
         p = subprocess.run([os.path.join(self.sut, "bin", "kddp"), "kompiliere", main, "-o", obj, "-O", str(opt)] + list(kddp_flags), cwd=d, env=self.env,
                            stdout=subprocess.PIPE, stderr=subprocess.STDOUT, text=True, errors="replace", timeout=120)
         if p.returncode != 0 or not os.path.exists(obj):
             return False, "compile", "rc=%d %s" % (p.returncode, p.stdout[-1500:]), None
-        exe = os.path.join(d, "x%d%s" % (opt, "a" if asan else ""))
+        exe = os.path.join(d, "x%d%s%s" % (opt, cfg, "a" if asan else ""))
         lib = os.path.join(self.sut, "asan/lib" if asan else "lib")
         cmd = (["clang-14", "-fsanitize=address"] if asan else ["gcc"]) + [obj] + list(extra_objs) + \
               [os.path.join(self.sut, "shim", "setlocale_wrap.o"), os.path.join(self.sut, "shim", "ledger_wrap.o")] + [
@@ -407,7 +429,7 @@ class Runner:
         os.makedirs(d)
         return d
 
-    def run_sources(self, sources, opts=(1,), ledger=False, asan=False, keep=False):
+    def run_sources(self, sources, opts=(1,), ledger=False, asan=False, keep=False, cfgs=("LL",)):
         """sources: list of str (single-file programs). Returns list of dict(build=..., runs={opt: result})"""
         dirs = [self.newdir() for _ in sources]
 
@@ -417,11 +439,13 @@ class Runner:
                 f.write(sources[i])
             res = dict(dir=d, runs={}, fail={})
             for o in opts:
-                ok, stage, msg, exe = self.build(d, "m.ddp", opt=o, asan=asan)
-                if not ok:
-                    res["fail"][o] = (stage, msg)
-                    continue
-                res["runs"][o] = self.execute(exe, ledger=ledger, asan=asan)
+                for cfg in cfgs:
+                    key = o if cfgs == ("LL",) else (o, cfg)
+                    ok, stage, msg, exe = self.build(d, "m.ddp", opt=o, asan=asan, cfg=cfg)
+                    if not ok:
+                        res["fail"][key] = (stage, msg)
+                        continue
+                    res["runs"][key] = self.execute(exe, ledger=ledger, asan=asan)
             if not keep:
                 for f in os.listdir(d):
                     if not f.endswith(".ledger") and f != "m.ddp":
